@@ -62,6 +62,34 @@ class _DType:
         return _cast(x, self.name)
 
 
+class npinteger:
+    """a numpy integer SCALAR as a caller may pass it (e.g. `for seed in np.arange(3)`): behaves like an integer but
+    is NOT an instance of Python's int.  Only created by harnesses; the value may be symbolic."""
+    __slots__ = ('v',)
+
+    def __init__(self, v):
+        self.v = v.v if isinstance(v, npinteger) else v
+
+    def __index__(self): return operator.index(self.v)
+    def __int__(self): return int(self.v)
+    def __bool__(self): return bool(self.v != 0)
+    def __hash__(self): return hash(self.v)
+    def __eq__(self, o): return self.v == (o.v if isinstance(o, npinteger) else o)
+    def __ne__(self, o): return self.v != (o.v if isinstance(o, npinteger) else o)
+    def __lt__(self, o): return self.v < (o.v if isinstance(o, npinteger) else o)
+    def __le__(self, o): return self.v <= (o.v if isinstance(o, npinteger) else o)
+    def __gt__(self, o): return self.v > (o.v if isinstance(o, npinteger) else o)
+    def __ge__(self, o): return self.v >= (o.v if isinstance(o, npinteger) else o)
+    def __add__(self, o): return npinteger(self.v + (o.v if isinstance(o, npinteger) else o))
+    __radd__ = __add__
+    def __sub__(self, o): return npinteger(self.v - (o.v if isinstance(o, npinteger) else o))
+    def __mul__(self, o): return npinteger(self.v * (o.v if isinstance(o, npinteger) else o))
+    __rmul__ = __mul__
+    def __deepcopy__(self, memo): return self
+    def __copy__(self): return self
+    def __repr__(self): return "np.int64(%r)" % (self.v,)
+
+
 bool_ = _DType('bool')
 int64 = _DType('int')
 int_ = int64
@@ -627,6 +655,8 @@ class ndarray:
             b = _broadcast_flat(o, shape)
         if reflected:
             a, b = b, a
+        if kind == 'sub' and rdt == 'bool':
+            raise TypeError("numpy boolean subtract, the `-` operator, is not supported, use the bitwise_xor, the `^` operator, or the logical_xor function instead.")
         if kind == 'cmp':
             out = [f(x, y) for x, y in zip(a, b)]
             return ndarray._new(out, shape, 'bool')
@@ -1498,6 +1528,21 @@ def expand_dims(a, axis):
     inner = a.strides[axis] * a.shape[axis] if axis < a.ndim else 1
     strides = a.strides[:axis] + (inner,) + a.strides[axis:]
     return ndarray(a.buf, a.off, shape, strides, a.dt)
+
+
+def result_type(*args):
+    dts = []
+    for a in args:
+        if isinstance(a, ndarray):
+            dts.append(a.dt)
+        elif isinstance(a, (type, str)):
+            dts.append(_dt(a))
+        else:
+            dts.append(_scalar_dt(a))
+    r = dts[0]
+    for d in dts[1:]:
+        r = _result_dt(r, d)
+    return {'bool': bool, 'int': int, 'float': float, 'object': object}[r]
 
 
 def unravel_index(i, shape):
